@@ -6,8 +6,11 @@ class Work:
     def __init__(self, path):
         self.path = path
         self.L = open(path).read().split("\n")
+        self.lo_marker = None
     def find(self, marker, occ=0):
-        hits = [i for i, l in enumerate(self.L) if marker in l]
+        lo = 0 if self.lo_marker is None else min(i for i, l in enumerate(self.L) if self.lo_marker in l)
+        hits = [i for i, l in enumerate(self.L) if marker in l and i >= lo]
+        if occ == -1 and hits: return hits[-1]
         if len(hits) <= occ:
             raise SystemExit("anchor not found (%d hits): %r" % (len(hits), marker))
         return hits[occ]
